@@ -380,7 +380,7 @@ def make(g, toks, info, tags, checks=None):
         if tr is not None and not getattr(case, "_traced", False):
             case._traced = True
             st, _, tg = tr.partition(" ")
-            case.tags = case.tags + tuple("eb:" + t for t in tg.split(",") if t and t != "-")
+            case.tags = case.tags + tuple("eb:" + t for t in tg.split(",") if t and t != "-" and not t.startswith("at:"))
             if not st.startswith("ok"):
                 case.tags = case.tags + ("ebstatus:" + st[:60],)
         return inner_expect(hout, body, case)
